@@ -26,7 +26,7 @@ def reexec_with_hashseed(seed):
 def load_known():
     with open(os.path.join(VERIF, "known_findings.json")) as f:
         k = json.load(f)
-    return {e["id"]: e for e in k.get("findings", [])}
+    return {(e["id"], e["property"]): e for e in k.get("findings", [])}
 
 
 def main():
@@ -66,13 +66,13 @@ def main():
             # clause of another property evaluated on the same traces: reported by that check
             continue
         kf = f.get("kf") or ""
-        if kf and kf in known and known[kf]["property"] == pid:
+        if kf and (kf, pid) in known:
             kf_seen.setdefault(kf, []).append(f)
         else:
             violations.append(f)
     for kf, fs in sorted(kf_seen.items()):
         print("KNOWN-FINDING: property=%s %s %s (%d observed steps)"
-              % (pid, kf, known[kf]["what"], len(fs)))
+              % (pid, kf, known[(kf, pid)]["what"], len(fs)))
     if drift:
         print("DRIFT property=%s %d steps where the model and the code disagree (first: %s)"
               % (pid, len(drift), json.dumps({k: drift[0][k] for k in ("clause", "hist")})[:400]))
